@@ -930,9 +930,6 @@ func (h *handler) makeSyncer(peerInfo peer.AddrInfo, doUpdate bool) (Syncer, fun
 		httpAddrs = s.httpPeerstore.Addrs(peerInfo.ID)
 	} else {
 		httpAddrs = mautil.FindHTTPAddrs(peerInfo.Addrs)
-		if doUpdate && len(httpAddrs) != 0 {
-			delNotPresent(s.httpPeerstore, peerInfo.ID, httpAddrs)
-		}
 	}
 
 	var update func()
@@ -953,6 +950,12 @@ func (h *handler) makeSyncer(peerInfo peer.AddrInfo, doUpdate bool) (Syncer, fun
 		}
 		if doUpdate {
 			update = func() {
+				// The sync with these addresses succeeded: they replace the
+				// ones known so far. (Not before: a failed sync that named
+				// other addresses must not cost the ones that work.)
+				if len(peerInfo.Addrs) != 0 {
+					delNotPresent(s.httpPeerstore, peerInfo.ID, httpAddrs)
+				}
 				// Store http address so that future calls to sync will work
 				// without a peerAddr (given that it happens within the TTL)
 				s.httpPeerstore.AddAddrs(peerInfo.ID, httpAddrs, s.addrTTL)
@@ -967,13 +970,14 @@ func (h *handler) makeSyncer(peerInfo peer.AddrInfo, doUpdate bool) (Syncer, fun
 			peerStore = s.host.Peerstore()
 		}
 		if peerStore != nil && len(peerInfo.Addrs) != 0 {
-			delNotPresent(peerStore, peerInfo.ID, peerInfo.Addrs)
 			// Add it to peerstore with a small TTL first, and extend it if/when
 			// sync with it completes. In case the peerstore already has this
 			// address and the existing TTL is greater than this temp one, this is
 			// a no-op. In other words, the TTL is never decreased here.
 			peerStore.AddAddrs(peerInfo.ID, peerInfo.Addrs, tempAddrTTL)
 			update = func() {
+				// Only now do these addresses replace the ones known so far.
+				delNotPresent(peerStore, peerInfo.ID, peerInfo.Addrs)
 				peerStore.AddAddrs(peerInfo.ID, peerInfo.Addrs, s.addrTTL)
 			}
 		} else {
